@@ -26,11 +26,12 @@ const (
 	// optional methods those types have (Next, WriteTo, Peek, Discard, ...): they are legal avro.Readers too
 	ModeBytesBuffer = 3 // *bytes.Buffer
 	ModeBufio16     = 4 // *bufio.Reader with a 16-byte buffer (short reads at every refill boundary)
-	NumReadModes    = 5
+	ModeZeroNil     = 5 // every other Read returns (0, nil) — discouraged but legal: "nothing happened"
+	NumReadModes    = 6
 )
 
 func ModeName(m int) string {
-	return [...]string{"full", "1-byte", "data+EOF", "*bytes.Buffer", "*bufio.Reader(16)"}[m]
+	return [...]string{"full", "1-byte", "data+EOF", "*bytes.Buffer", "*bufio.Reader(16)", "every-other-read-(0,nil)"}[m]
 }
 
 // NewReader returns the reader for a mode of Read.
@@ -48,6 +49,7 @@ type Reader struct {
 	Data []byte
 	Pos  int
 	Mode int
+	tick int
 }
 
 func (r *Reader) Read(p []byte) (int, error) {
@@ -56,6 +58,12 @@ func (r *Reader) Read(p []byte) (int, error) {
 	}
 	if r.Pos >= len(r.Data) {
 		return 0, io.EOF
+	}
+	if r.Mode == ModeZeroNil {
+		r.tick++
+		if r.tick%2 == 1 {
+			return 0, nil
+		}
 	}
 	n := len(p)
 	if r.Mode == ModeOneByte {
